@@ -65,7 +65,22 @@ class C02(runner.Prop):
             't': gen.tree_descs(ml, keys=gen.key_descs(total_only=True),
                                 kinds=('dict', 'dd', 'od', 'tuple', 'list', 'cg', 'cs', 'nt')),
             'cfg': gen.configs(), 'perm': st.just(True)})
-        return st.one_of(general, total)
+        # stratum: key sets that defeat both sorting attempts (two keys of a type without ordering) *after* sortable
+        # keys inserted out of order - the documented result is the insertion order, untouched by the failed sorts
+        unsortable_keys = st.tuples(st.permutations([['i', 1], ['i', 2], ['i', 3], ['s', 'a'], ['s', 'b']]), st.integers(2, 4),
+                                    st.permutations([['K', 0], ['K', 1], ['K', 2]]), st.integers(2, 3), st.booleans()).map(
+            lambda t: (list(t[0][:t[1]]) + list(t[2][:t[3]])) if t[4] else (list(t[0][:1]) + list(t[2][:1]) + list(t[0][1:t[1]]) + list(t[2][1:t[3]])))
+
+        @st.composite
+        def unsortable(draw):
+            keys = draw(unsortable_keys)
+            kind = draw(st.sampled_from(['dict', 'dd', 'dict']))
+            items = [[k, draw(gen.tree_descs(2, max_depth=2))] for k in keys]
+            node = ['dd', draw(gen._FACT), items, []] if kind == 'dd' else ['dict', items, []]
+            outer = draw(st.sampled_from(['bare', 'list', 'dict']))
+            t = node if outer == 'bare' else (['list', [['L', 0], node]] if outer == 'list' else ['dict', [[['s', 'z'], node], [['s', 'b'], ['L', 1]]], []])
+            return {'t': t, 'cfg': draw(gen.configs())}
+        return st.one_of(general, total, unsortable())
 
     def check_case(self, case, ctx):
         cfg = gen.sound_cfg(case)
